@@ -6,7 +6,7 @@ import re
 from ..core import build, driver
 from ..core.explore import Check
 
-OP = {"pop": 3, "make_bool": 6, "make_str": 7, "make_bigint": 8, "make_int": 9, "make_float": 10,
+OP = {"make_vector": 14, "store_fast": 42, "load_fast": 25, "vec_op": 5, "pop": 3, "make_bool": 6, "make_str": 7, "make_bigint": 8, "make_int": 9, "make_float": 10,
       "make_byte": 11, "void": 15, "printn": 18, "call_lib": 32, "ret_mod": 57}
 
 # (kind, make-instruction, argument text, rendering by the probe (Rust {:?}-style), Display, H2 kind)
@@ -20,6 +20,8 @@ VALS = {
     "str": [("make_str", "s", 'str:"s"', "s", "Str"), ("make_str", '"a b"', 'str:"a b"', "a b", "Str")],
 }
 KINDS = list(VALS)
+# values that own garbage-collected memory: a list (built in a register before the argument vector is pushed) - separate layer
+LISTS = [([1, 2], "list:[1, 2]", "[1, 2]"), ([], "list:[]", "[]"), ([7], "list:[7]", "[7]")]
 FUNCS = ["echo", "last", "nothing", "fail", "nolib", "nosym", "echo2"]
 
 
@@ -32,7 +34,16 @@ def ins(op, *args):
 
 def assemble(vec, func, lib):
     body = b""
-    for kind, vi in vec:
+    # lists are built first, each in its own register, because building one uses the operand stack
+    for pos, (kind, vi) in enumerate(vec):
+        if kind == "list":
+            body += ins("make_vector", str(len(LISTS[vi][0]))) + ins("store_fast", f"#{pos}")
+            for x in LISTS[vi][0]:
+                body += ins("make_int", str(x)) + ins("vec_op", f"+#{pos}")
+    for pos, (kind, vi) in enumerate(vec):
+        if kind == "list":
+            body += ins("load_fast", f"#{pos}")
+            continue
         mk, arg = VALS[kind][vi][0], VALS[kind][vi][1]
         body += ins(mk, arg)
     if func == "nolib":
@@ -180,7 +191,7 @@ class C19(Check):
             "result stored} x {echo, last, fail, missing library, missing symbol}; each assembled as a binary .mmm and executed with `mscript execute`. "
             "Non-trivial = vector length >= 1; distinct = distinct (vector, function).")
     assumptions = ["probe dylib built against /repo/bytecode in the same cargo target dir",
-                   "values owning GC memory (lists, objects, functions) are outside the alphabet",
+                   "of the values owning GC memory only lists of ints are in the alphabet (objects, functions, maps are not)",
                    "dev profile, Linux dlopen"]
     chunksize = 32
 
@@ -204,8 +215,11 @@ class C19(Check):
                     yield (vec, f)
         seq2 = [("seq", c) for c in itertools.product(range(len(SEQ_CALLS)), repeat=2)]
         posl = [("pos", p_, f_) for p_ in POSITIONS for f_ in POS_FUNCS if not (p_ == "filter-callback" and f_ == "echo")]
+        syms = [("list", i) for i in range(len(LISTS))] + [("int", 0), ("str", 0), ("bool", 1)]
+        gcl = [(vec, f) for n in (1, 2, 3) for vec in itertools.product(syms, repeat=n) if any(k == "list" for k, _ in vec)
+               for f in ("echo", "last", "nothing", "fail", "echo2")]
         libl = [("lib", "named", i) for i in range(len(LIB_NAMES))] + [("lib", "ghost", i) for i in range(len(LIB_GHOSTS))]
-        ls = [("L0-len<=2", list(gen(2))), ("L0b-call-sequences-of-2", seq2), ("L0c-call-positions", posl), ("L0d-library-file-names", libl),
+        ls = [("L0-len<=2", list(gen(2))), ("L0b-call-sequences-of-2", seq2), ("L0c-call-positions", posl), ("L0d-library-file-names", libl), ("L0e-list-arguments-len<=3", gcl),
               ("L1-len<=4", gen(4, 3))]
         if L > 4:
             ls.append(("L1b-call-sequences-of-3", [("seq", c) for c in itertools.product(range(len(SEQ_CALLS)), repeat=3)]))
@@ -222,7 +236,7 @@ class C19(Check):
         if case[0] == "lib":
             return {"library": LIB_NAMES[case[2]] if case[1] == "named" else list(LIB_GHOSTS[case[2]]), "kind": case[1]}
         vec, f = case
-        return {"args": [f"{k}:{VALS[k][i][1]}" for k, i in vec], "function": f}
+        return {"args": [f"{k}:{LISTS[i][0] if k == 'list' else VALS[k][i][1]}" for k, i in vec], "function": f}
 
     def run_seq(self, case):
         seq = [SEQ_CALLS[i] for i in case[1]]
@@ -328,7 +342,12 @@ class C19(Check):
         driver.write_files(d, {"a.mmm": prog})
         res = driver.run(["execute", "a.mmm"], d, env={"MSCRIPT_VERIF_TYPED_PRINT": "1"})
         lines = res.lines()
-        rend = "[" + ";".join(VALS[k][i][2] for k, i in vec) + "]"
+        def r2(k, i):
+            return LISTS[i][1] if k == "list" else VALS[k][i][2]
+
+        def shown(k, i):
+            return ("Vector:" + LISTS[i][2]) if k == "list" else (VALS[k][i][4] + ":" + VALS[k][i][3])
+        rend = "[" + ";".join(r2(k, i) for k, i in vec) + "]"
         viol = []
         detail = {"case": self.describe(case), "files": {"a.mmm": prog}, "cmd": "mscript execute a.mmm",
                   "res": res.brief()}
@@ -346,7 +365,7 @@ class C19(Check):
             elif func == "last":
                 if vec:
                     k, i = vec[-1]
-                    exp0 = VALS[k][i][4] + ":" + VALS[k][i][3]
+                    exp0 = shown(k, i)
                 else:
                     exp0 = "Int:-1"
             else:
